@@ -248,3 +248,65 @@ GALACTIC_UNIT = [
     math.cos(GALACTIC_DEC) * math.sin(GALACTIC_RA),
     math.sin(GALACTIC_DEC),
 ]
+
+
+def eci_offset_to_sez(host_pos, d):
+    """Components of ECI offset ``d`` on the geometric S, E, Z axes at ``host_pos`` (inverse of sez_to_eci_offset)."""
+    s, e, z = local_sez_axes(host_pos)
+    return [dot(d, s), dot(d, e), dot(d, z)]
+
+
+# --------------------------------------------------------------------------------------------- sensor-level geometry
+def direction_from_nadir(host_pos, eta, psi):
+    """ECI unit vector at angle ``eta`` from the nadir (-host_pos) of an observer, position angle ``psi`` about it."""
+    n = scale(unit(host_pos), -1.0)
+    p1, p2 = perp_frame(n)
+    side = add(scale(p1, math.cos(psi)), scale(p2, math.sin(psi)))
+    return add(scale(n, math.cos(eta)), scale(side, math.sin(eta)))
+
+
+def ray_sphere_ranges(r_obs, eta, r_shell):
+    """Positive distances along a ray leaving an observer at geocentric distance ``r_obs`` at nadir angle ``eta`` at which
+    the ray crosses the geocentric sphere of radius ``r_shell`` (0, 1 or 2 values, ascending)."""
+    disc = r_shell * r_shell - (r_obs * math.sin(eta)) ** 2
+    if disc < 0.0:
+        return []
+    mid, half = r_obs * math.cos(eta), math.sqrt(disc)
+    return sorted(s for s in {mid - half, mid + half} if s > 0.0)
+
+
+def in_limb_cone_eci(host_pos, tgt_pos, r_earth=R_EARTH, atmosphere=ATMOSPHERE):
+    """Tangent-cone test in the inertial frame: (inside, angle from nadir of the line host -> target, cone half-angle).
+    The cone has its apex at the OBSERVER and is tangent to the sphere of radius r_earth + atmosphere."""
+    d = [q - p for p, q in zip(host_pos[:3], tgt_pos[:3])]
+    eta = angle_between(scale(host_pos[:3], -1.0), d)
+    cone = limb_cone(norm(host_pos), r_earth, atmosphere)
+    return eta < cone, eta, cone
+
+
+# --------------------------------------------------------------------------------------------- photometry / radar range
+SUN_MAGNITUDE = -26.74  # apparent visual magnitude of the Sun (Cognion 2013, Eq. 3)
+
+
+def lambert_phase(phi):
+    """Diffuse (Lambertian) sphere phase function, Cognion 2013 Eq. 1; phi = Sun-object-observer angle."""
+    return 2.0 * ((math.pi - phi) * math.cos(phi) + math.sin(phi)) / (3.0 * math.pi * math.pi)
+
+
+def apparent_vismag(area_m2, reflectivity, sun_pos, tgt_pos, obs_pos):
+    """Apparent visual magnitude of a diffuse sphere of cross-section ``area_m2`` seen from ``obs_pos`` (km)."""
+    to_sun = [q - p for p, q in zip(tgt_pos[:3], sun_pos[:3])]
+    to_obs = [q - p for p, q in zip(tgt_pos[:3], obs_pos[:3])]
+    phi = angle_between(to_sun, to_obs)
+    rng_m = norm(to_obs) * 1000.0
+    return SUN_MAGNITUDE - 2.5 * math.log10(area_m2 * reflectivity * lambert_phase(phi) / (rng_m * rng_m)), phi
+
+
+def radar_max_range_km(tx_power_w, diameter_m, efficiency, frequency_hz, min_power_w, area_m2):
+    """Radar range equation solved for the range at which the echo of a flat plate of area ``area_m2`` (RCS = 4 pi A^2 /
+    lambda^2), seen with a circular aperture of gain eta (pi D / lambda)^2, equals ``min_power_w``."""
+    lam = 2.99792458e8 / frequency_hz
+    gain = efficiency * (math.pi * diameter_m / lam) ** 2
+    rcs = 4.0 * math.pi * area_m2 * area_m2 / (lam * lam)
+    r4 = tx_power_w * gain * gain * lam * lam * rcs / ((4.0 * math.pi) ** 3 * min_power_w)
+    return r4 ** 0.25 / 1000.0
